@@ -435,6 +435,72 @@ func fixedC14(r *Rec, tier string, shard, nshards int) []*Case {
 				r.NonTrivial("f\x00"+fam.name+"\x00"+itoa(n), nil)
 			}
 		}
+		// ---- bounded-exhaustive tag sequences: every sequence of up to 5 (thorough 6) tags over an
+		// element that is kept only with attributes (dropped bare), the same for <a>, a kept and an
+		// unknown element, for element names with and without non-ASCII / quote / backslash characters
+		// (the skip stacks and counters are keyed by names that are normalised in some places only)
+		{
+			maxLen := 5
+			if tier == "thorough" {
+				maxLen = 6
+			}
+			for _, name := range []string{"x-caf\u00e9", "my-\u00fc", "x-\"q", "font"} {
+				spec := &Spec{Base: "New", Ops: []Op{{Kind: "AllowAttrs", Attrs: []string{"class"}, Scope: "els", Names: []string{name}, ValRe: -1},
+					{Kind: "AllowAttrs", Attrs: []string{"href"}, Scope: "els", Names: []string{"a"}, ValRe: -1}, {Kind: "AllowElements", Names: []string{"b"}, ValRe: -1},
+					{Kind: "AllowRelativeURLs", B: true, ValRe: -1}, {Kind: "AddSpaceWhenStrippingTag", B: true, ValRe: -1}}}
+				pol := Build(spec, nil)
+				alphabet := []string{"<" + name + ">", "</" + name + ">", "<" + name + ` class="c">`, "<a>", "</a>", `<a href="x">`, "<b>", "</b>", "</q>", "<object>", "</object>"}
+				idx := make([]int, maxLen)
+				var batch []string
+				flush := func() {
+					if len(batch) == 0 {
+						return
+					}
+					cur := ""
+					b := batch
+					batch = nil
+					// one watchdog per batch of tiny inputs (a goroutine and a timer per input would cost
+					// more than the calls themselves); cur names the input a panic or a stall belongs to
+					res := timedCall(soupBudget, func() string {
+						for _, in := range b {
+							cur = in
+							pol.Sanitize(in)
+						}
+						return ""
+					})
+					evals += len(b)
+					if res.panicked != nil {
+						hardFail(&Case{Kind: "soup", Spec: spec, Input: BStr(cur)}, r, fmt.Sprintf("C14: Sanitize panics on %s: %v", q(cur), res.panicked))
+					}
+					if res.timedOut {
+						hardFail(&Case{Kind: "soup", Spec: spec, Input: BStr(cur)}, r, fmt.Sprintf("C14: Sanitize does not return within %v on (a batch of tag sequences at) %s", soupBudget, q(cur)))
+					}
+				}
+				var rec func(pos int)
+				rec = func(pos int) {
+					if pos > 0 {
+						var sb strings.Builder
+						for _, i := range idx[:pos] {
+							sb.WriteString(alphabet[i])
+						}
+						batch = append(batch, sb.String())
+						if len(batch) >= 4000 {
+							flush()
+						}
+					}
+					if pos == maxLen {
+						return
+					}
+					for i := range alphabet {
+						idx[pos] = i
+						rec(pos + 1)
+					}
+				}
+				rec(0)
+				flush()
+			}
+			r.Class("exhaustive_tag_sequences")
+		}
 		// ---- token lists with every kind of separator: rel, sandbox and class values are scanned token by
 		// token; a separator one scanner knows and another does not must not stop progress
 		{
